@@ -83,6 +83,7 @@ class Contract:
     assume_after: dict = field(default_factory=dict)  # callee name -> [Clause] ASSUMED right after each such call (`result` bound); listed as assumptions
     ghost_at_exit: dict = field(default_factory=dict)  # ghost path -> expression over the EXIT state (may mention cand_locals)
     binds_fields: dict = field(default_factory=dict)   # for __init__ contracts: object-typed field -> parameter it aliases
+    interrupt_exit: list = field(default_factory=list)  # C14: clauses at an exit reached after an interrupt (may mention cand_locals)
     cand_locals: tuple = ()                   # locals that candidates may mention besides __done__/__ret__
     ghost_yield: dict = field(default_factory=dict)
     rely_ensures: list = field(default_factory=list)
@@ -174,7 +175,7 @@ class Registry:
         return self.records[sort]
 
     def contract(self, key, **kw):
-        for k in ('requires', 'ensures', 'candidates', 'yields', 'rely_ensures'):
+        for k in ('requires', 'ensures', 'candidates', 'yields', 'rely_ensures', 'interrupt_exit'):
             kw[k] = _clauses(kw.get(k))
         kw['raises'] = {k: _clauses(v) for k, v in (kw.get('raises') or {}).items()}
         if isinstance(kw.get('serves'), str):
